@@ -19,6 +19,7 @@ import LianVerif.Drv.WfCheck
 import LianVerif.Drv.Table
 import LianVerif.Drv.BlockView
 import LianVerif.Drv.Workspace
+import LianVerif.Drv.EntryPoints
 
 open Lean LianVerif.Drv
 
@@ -44,6 +45,7 @@ def dispatch (j : Json) : Except String Json := do
   | "tablealias" => LianVerif.Drv.Table.handleAlias j
   | "blockview" => LianVerif.Drv.BlockView.handle j
   | "workspace" => LianVerif.Drv.Workspace.handle j
+  | "entrypoints" => LianVerif.Drv.EntryPoints.handle j
   | _ => throw s!"unknown model {m}"
 
 partial def loop (hin hout : IO.FS.Stream) : IO Unit := do
